@@ -127,6 +127,10 @@ func (t *BaseTraveler) GetCurrent() *DataElement {
 }
 
 func (t *BaseTraveler) GetCurrentID() string {
+	if t.Current == nil {
+		// null traveler (outNull/inNull found nothing): no element, no id
+		return ""
+	}
 	return t.Current.ID
 }
 
